@@ -68,5 +68,7 @@ structure DictWF (d : ChunkDictionary) : Prop where
   descr : ∀ c ∈ d.chunkDescriptors, c.archiveSize < 2 ^ 32 ∧ c.archiveOffset < 2 ^ 64 ∧ c.sourceSize < 2 ^ 32
   meta_utf8 : ∀ e ∈ d.metadata, utf8Valid e.1 = true
   meta_sorted : d.metadata.Pairwise (fun a b => (a.1.map (·.toNat)) < (b.1.map (·.toNat)))
+  /-- the encoding fits a `Vec<u8>` (every length prefix is the length of a part of it) -/
+  size : (encodeDictionary d).length < 2 ^ 64
 
 end Bita.Spec
